@@ -442,6 +442,13 @@ func (f *Footer) DecRef() {
 		f.SegmentLocs.DecRef()
 		f.SegmentLocs = nil
 		f.ss = nil
+
+		// Also drop the ref-count held on each child footer, so that
+		// the mmap's and the file they keep alive are released too.
+		for _, childFooter := range f.ChildFooters {
+			childFooter.DecRef()
+		}
+		f.ChildFooters = nil
 	}
 	f.m.Unlock()
 }
